@@ -45,7 +45,7 @@ class C03(Check):
             out.append({"owner": owner, "cls": cname, "geom": {"n": 3, "g": [1, 2, -3, 4, 0, 5]},
                         "ops": [{"attr": attr, "seed": [5, 3, 1]}, {"attr": attr, "seed": [0]}], "reload_first": False})
             out.append({"owner": owner, "cls": cname, "geom": {"n": 3, "g": [1, 2, -3, 4, 0, 5]},
-                        "ops": [{"attr": attr, "seed": [100]}, {"attr": attr, "seed": [3, 1, 2]}], "reload_first": True})
+                        "ops": [{"attr": attr, "seed": [100]}, {"attr": attr, "seed": [1, 1, 2]}], "reload_first": True})
         return out
 
     def strategy(self, tier):
